@@ -132,3 +132,41 @@ def standard_configs(ctx, fields=None, small=(2, 3), big=(4, 8, 16)):
             if ctx.thorough or (i == 0 and n == 8):
                 cfg.append((n, p, E.lattice(n)))
     return cfg
+
+
+# ------------------------------------------------------------------------------------------------
+# depth >= 3: breadth-first search over operation sequences with state merging (pv/bfs.py)
+
+def _bfs_init():
+    H.bind(REC.BN128)
+
+
+def _bfs_task(t):
+    from . import bfs
+    init, depth, n, p, small = t
+    st, viols = bfs.explore(tuple(init), depth, n, p, small)
+    return {"st": st, "viols": viols}
+
+
+def bfs_sweep(ctx, klasses, thorough):
+    """Runs the sequence search and keeps the violations whose class is in `klasses`."""
+    import itertools
+    if thorough:
+        inits = [(a, b) for a in (-3, -1, 0, 2, 3) for b in (-2, 0, 1, 3)]
+        cfgs = [(3, REC.BN128, 3, False), (2, REC.BLS12_381, 4, True)]
+    else:
+        inits = [(a, b) for a in (-3, 0, 2) for b in (-1, 1, 3)]
+        cfgs = [(3, REC.BN128, 3, True)]
+    tasks = [(init, depth, n, p, small) for n, p, depth, small in cfgs for init in inits]
+    results = common.pool_map(_bfs_task, tasks, init=_bfs_init)
+    agg = {}
+    for r in results:
+        common.merge_counts(agg, r["st"])
+        for v in r["viols"].values():
+            if v["sig"]["klass"] in klasses:
+                ctx.violations.append({"sig": v["sig"], "case": dict(v["case"], bfs=True), "what": v["what"] + " (x%d)" % v["count"]})
+    ctx.cov["sequence_search"] = {"initial_register_files": len(inits), "bounds": [{"bitlength": n, "depth": d, "small_alphabet": s} for n, _, d, s in cfgs], **agg}
+    ctx.cov["states"] = ctx.cov.get("states", 0) + agg.get("states", 0)
+    ctx.cov["transitions"] = ctx.cov.get("transitions", 0) + agg.get("transitions", 0)
+    ctx.cov["executions"] = ctx.cov.get("executions", 0) + agg.get("histories", 0)
+    return agg
